@@ -13,19 +13,34 @@ META = dict(
     stubs=['numpy -> np_shim (arange, array_split contract; array_split validated against numpy for n <= 12, k <= 13 on every run)'],
     assumptions=['k (sections) is any integer <= n+3 (unbounded below: every k <= 0 is covered; k > n+3 is outside because the error message formats k, which '
                  'would make CrossHair enumerate it); shard index i in [-k-2, k+2)'],
-    bounds=dict(quick='n in 0..6, list- and dict-backed', thorough='n in 0..10'),
+    bounds=dict(quick='n in 0..6, list- and dict-backed; n in {3,4} for datasets that are themselves derived (reversed / stepped / tail slice, index list, concatenation, map)', thorough='n in 0..10; derived n in 1..6'),
     outside=['history across calls through functools.lru_cache (CrossHair bypasses such caches; covered only by the concrete validation run on pinned (k, i) pairs)', 'n above the bound ("exhaustive for N up to a few hundred" is not claimed)'],
 )
 
 
-def body_split(backing, n, k, i):
-    vals = list(range(100, 100 + n))
+PREFIXES = {          # the dataset that is sharded is itself derived: (how to derive it, the same on a plain list)
+    'none': (lambda d: d, lambda x: x),
+    'rev': (lambda d: d[::-1], lambda x: x[::-1]),
+    'rev2': (lambda d: d[::-2], lambda x: x[::-2]),
+    'tail': (lambda d: d[1:], lambda x: x[1:]),
+    'step2': (lambda d: d[::2], lambda x: x[::2]),
+    'idx': (lambda d: d[list(range(len(d) - 1, -1, -1))], lambda x: x[::-1]),
+    'cat': (lambda d: d[:1].concatenate(d[1:]), lambda x: x),
+    'map': (lambda d: d.map(lambda v: v), lambda x: x),
+}
+
+
+def body_split(backing, n0, prefix, k, i):
+    vals = list(range(100, 100 + n0))
     if backing == 'dict':
         ds = DictDataset({rt.KEYS[j] if j < len(rt.KEYS) else f'k{j}': v for j, v in enumerate(vals)})
-        keys = list(ds.keys())
+        keys = PREFIXES[prefix][1](list(ds.keys()))
     else:
         ds = ListDataset(vals)
         keys = None
+    ds = PREFIXES[prefix][0](ds)
+    vals = PREFIXES[prefix][1](vals)
+    n = len(vals)
     # the ValueError message of split() formats `sections`, and list indexing realises the shard index:
     # both enumerate a symbolic value, so the ranges above the valid ones are finite (below they are unbounded)
     rt.assume(k <= n + 3)
@@ -76,8 +91,9 @@ def body_split(backing, n, k, i):
 
 
 FAMILIES = [
-    Family('split', body_split, ['backing', 'n'], [('k', 'int'), ('i', 'int')],
-           lambda tier, seed: [(b, n) for b in ('list', 'dict') for n in range(0, (7 if tier == 'quick' else 11))],
+    Family('split', body_split, ['backing', 'n', 'prefix'], [('k', 'int'), ('i', 'int')],
+           lambda tier, seed: [(b, n, 'none') for b in ('list', 'dict') for n in range(0, (7 if tier == 'quick' else 11))]
+                              + [(b, n, p) for b in ('list', 'dict') for n in ((3, 4) if tier == 'quick' else (1, 2, 3, 4, 5, 6)) for p in PREFIXES if p != 'none'],
            pinned=lambda sel: [(k, i) for k in range(1, sel[1] + 1) for i in (-1, 0, k - 1, -k)][:16],
            timeout=dict(quick=90, thorough=600), desc='split(k) partitions in order with sizes differing by <= 1; shard(k,i) == split(k)[i]; invalid k rejected'),
 ]
